@@ -177,8 +177,13 @@ func (r *Run) setPhase(p string) {
 func (r *Run) logf(format string, args ...interface{}) {
 	if r.keepHist {
 		r.hist = append(r.hist, fmt.Sprintf("%d ", r.e.Steps)+fmt.Sprintf(format, args...))
+		if logLive {
+			fmt.Fprintf(os.Stderr, "  live: %d %s\n", r.e.Steps, fmt.Sprintf(format, args...))
+		}
 	}
 }
+
+var logLive = os.Getenv("VERIF_LOG_LIVE") != ""
 
 func now() uint64 { return uint64(time.Now().Unix()) }
 
@@ -400,6 +405,15 @@ func (r *Run) onEvent(gid int64, kind string, a, b uint64, key, val []byte) {
 		r.mu.Unlock()
 	case "l0.stall":
 		r.probe("l0_stall_poll")
+		if os.Getenv("VERIF_DEBUG_STALL") != "" {
+			r.pmu.Lock()
+			n := r.stats.Probes["l0_stall_poll"]
+			r.pmu.Unlock()
+			if n == 100000 {
+				fmt.Fprintf(os.Stderr, "DEBUG_STALL at step %d active=%v\n", r.e.Steps, r.e.active.Load())
+				dumpAllStacks()
+			}
+		}
 	case "mt.rotate":
 		r.probe("memtable_rotated")
 	case "flush.done":
@@ -1595,6 +1609,10 @@ func (r *Run) bubble() {
 		r.harness = "close: " + closeErr.Error()
 	}
 	r.stats.SimTime = time.Since(r.startTime)
+	if os.Getenv("VERIF_DEBUG_LEAK") != "" {
+		synctest.Wait()
+		dumpAllStacks()
+	}
 }
 
 // prefill writes filler versions of one key through normal transactions (and
